@@ -399,6 +399,29 @@ func Try(f func()) (p *PanicInfo) {
 	return nil
 }
 
+// TryFast is Try without the stack trace. debug.Stack serialises on a
+// runtime lock, which dominates the run time when many goroutines recover
+// panics at a high rate; use TryFast in such workloads.
+func TryFast(f func()) (p *PanicInfo) {
+	defer func() {
+		if r := recover(); r != nil {
+			p = &PanicInfo{Value: r, Msg: fmt.Sprint(r)}
+			if re, ok := r.(runtime.Error); ok {
+				p.Runtime = true
+				p.Msg = re.Error()
+				if ae, ok := r.(interface{ Addr() uintptr }); ok {
+					p.Fault = true
+					p.Addr = ae.Addr()
+				}
+			} else if e, ok := r.(error); ok {
+				p.Msg = e.Error()
+			}
+		}
+	}()
+	f()
+	return nil
+}
+
 func trimStack(s string) string {
 	lines := strings.Split(s, "\n")
 	if len(lines) > 40 {
